@@ -538,7 +538,7 @@ static void gen(Emitter &em, const Options &opt) {
     {
         const size_t from[] = {0, 1, 255, 256, 257, 511, 512, 513, 1024, 1025, 5000};
         for (size_t n : from) for (int te = 0; te < 2; ++te) {
-            const size_t to[] = {0, 1, n > 0 ? n - 1 : 0, n, n + 1, 255, 256, 257, 512, ~(size_t)0};
+            const size_t to[] = {0, 1, n > 0 ? n - 1 : 0, n, n + 1, 255, 256, 257, 512, ~(size_t)0, ~(size_t)0 - 1, (size_t)1 << 63, ((size_t)1 << 63) - 1};
             for (size_t k : to) for (int tail = 0; tail < 3; ++tail) {
                 G g; g.live[0] = true; std::string ops = "D0";
                 if (n) join(ops, app(rng, g, 0, n));
